@@ -42,8 +42,12 @@ type input struct {
 	Msgs     int       `json:"msgs"`
 	// Reident = k+1 > 0: after the first application message the peer sends a
 	// (second) identity message naming key k, then goes on; 0 = it does not
-	Reident int    `json:"reident"`
-	Class   string `json:"class"`
+	Reident int `json:"reident"`
+	// UnauthOk is the honest router's UnauthOk field (set by onet's simulation and
+	// local test servers; documented as silencing a log message only). The model
+	// does not depend on it.
+	UnauthOk bool   `json:"unauthok,omitempty"`
+	Class    string `json:"class"`
 }
 
 // C08Msg is the application message the peers exchange.
@@ -133,6 +137,9 @@ func run(raw json.RawMessage) lib.Case {
 		o = runHere(&in)
 	}
 	class := in.Class
+	if in.UnauthOk {
+		class += ":unauthok"
+	}
 	if tags := defectTags(&in); tags != "" {
 		// one class per defect pattern, whatever generator produced the input
 		class = in.Role + tags
@@ -316,7 +323,7 @@ type honest struct {
 	ch   chan bool
 }
 
-func (w *world) newHonest(k int) (*honest, error) {
+func (w *world) newHonest(k int, unauthOk bool) (*honest, error) {
 	si := w.si(k, network.NewTLSAddress("127.0.0.1:0"), true)
 	r, err := network.NewTCPRouter(si, w.suite)
 	if err != nil {
@@ -324,6 +331,7 @@ func (w *world) newHonest(k int) (*honest, error) {
 	}
 	si.Address = r.VerifC08Address()
 	r.Quiet = true
+	r.UnauthOk = unauthOk
 	h := &honest{r: r, si: si, done: make(chan bool), ch: make(chan bool, 64)}
 	r.Dispatcher.RegisterProcessorFunc(c08MsgType, func(env *network.Envelope) error {
 		h.mu.Lock()
@@ -427,7 +435,7 @@ func usesOracle(in *input) bool {
 
 func runTLS(in *input) (o obs) {
 	w := newWorld(in.Suite)
-	h, err := w.newHonest(kHonest)
+	h, err := w.newHonest(kHonest, in.UnauthOk)
 	if err != nil {
 		return obs{Discard: "honest node: " + err.Error()}
 	}
@@ -435,7 +443,7 @@ func runTLS(in *input) (o obs) {
 	var e *honest
 	if usesOracle(in) {
 		// the honest holder of key 1 runs too: the deviating peer relays nonces to it
-		e, err = w.newHonest(kE)
+		e, err = w.newHonest(kE, false)
 		if err != nil {
 			return obs{Discard: "honest holder: " + err.Error()}
 		}
